@@ -27,7 +27,7 @@ for res in sorted(glob.glob("/tmp/mutlane*/results/*.json"), key=lambda x: os.pa
         continue
     diff = r.get("patch", "")
     shutil.copy(diff if os.path.exists(diff) else f"{src}/patch.diff", f"{d}/patch.diff")
-    for fn in ("demo.rs", "demo.sh", "README.md", "patch.orig.diff", "demo.orig.rs"):
+    for fn in ("demo.rs", "demo.sh", "demo.c", "run_demo.sh", "README.md", "patch.orig.diff", "demo.orig.rs"):
         if os.path.exists(f"{src}/{fn}"):
             shutil.copy(f"{src}/{fn}", f"{d}/{fn}")
     meta = json.load(open(f"{src}/meta.json"))
